@@ -83,8 +83,10 @@ def plan(tier):
            "spill", "enum:python", "gen:2", "history:ioerror-swallowed", "pos:inside-dump", "control"]
     if cat["strace_available"] and "strace" in cat["enumerators"]:
         req.append("enum:strace")
+    # a further generation exists only if the previous one left a directory state not seen before (restart closure)
+    req += [f"gen:{g}" for g in sorted({t["gen"] for t in cat["tasks"]}) if g > 2]
     if tier == "thorough":
-        req += ["gen:3", "stress"]
+        req += ["stress"]
     return {"ncases": N_RT[tier] + N_SPILL[tier] + ntasks + N_STRESS[tier],
             "min_nontrivial": 150 if tier == "quick" else 1500,
             "required_classes": req,
@@ -133,7 +135,7 @@ def crash_case(ctx, task):
     ctx.count("children_run")
     j = cc.judge(task, o)
     if o["stray"]:
-        ctx.violate("harness|child-left-files-outside-dump-dir", stray=o["stray"])
+        ctx.cls("child-left-files-in-its-working-directory")       # (inside the case's temp dir; removed with it)
     if j["verdict"] == "inconclusive":
         ctx.note_inconclusive(f"{task['enum']} gen{task['gen']} {task.get('op')}: {j['why']}")
         return
@@ -892,6 +894,16 @@ def finalize(coverage, events):
     all_states = sorted(set().union(*by_gen.values())) if by_gen else []
     ngen = cat.get("generations", 0)
     unexplored = sorted(s for g, ss in by_gen.items() if g < ngen for s in ss if s not in restarted and s != "nodir")
+    gens_run = sorted(by_gen)
+    last = gens_run[-1] if gens_run else 0
+    new_in_last = sorted(s for s in by_gen.get(last, ()) if s not in restarted and s != "nodir")
+    coverage["restart_closure"] = {
+        "generations_run": gens_run, "generation_cap": ngen,
+        "closed": bool(gens_run) and not new_in_last,
+        "states_first_seen_in_last_generation_not_restarted_from": new_in_last,
+        "meaning": "closed = the crashes of the last generation left no directory state that had not already been used as "
+                   "a restart state, i.e. deeper restart histories cannot reach new states of the abstract state space",
+    }
     coverage["directory_states"] = {
         "distinct": all_states,
         "by_generation": {str(g): sorted(s) for g, s in sorted(by_gen.items())},
